@@ -84,25 +84,30 @@ theorem digitChar_word (d : Nat) (h : d < 16) : isWordChar true (Nat.digitChar d
   have : ∀ k : Fin 16, isWordChar true (Nat.digitChar k.val) = true := by decide
   exact this ⟨d, h⟩
 
-theorem toDigitsCore_forall (P : Char → Prop) (hP : ∀ d, d < 16 → P (Nat.digitChar d)) :
-    ∀ (fuel n : Nat) (acc : List Char), (∀ c ∈ acc, P c) → ∀ c ∈ Nat.toDigitsCore 16 fuel n acc, P c := by
+theorem toDigitsCore_forall (P : Char → Prop) (b : Nat) (hb : 0 < b) (hP : ∀ d, d < b → P (Nat.digitChar d)) :
+    ∀ (fuel n : Nat) (acc : List Char), (∀ c ∈ acc, P c) → ∀ c ∈ Nat.toDigitsCore b fuel n acc, P c := by
   intro fuel
   induction fuel with
   | zero => intro n acc h c hc; simpa [Nat.toDigitsCore] using h c (by simpa [Nat.toDigitsCore] using hc)
   | succ f ih =>
     intro n acc h c hc
     simp only [Nat.toDigitsCore] at hc
-    have hacc : ∀ c ∈ Nat.digitChar (n % 16) :: acc, P c := by
+    have hacc : ∀ c ∈ Nat.digitChar (n % b) :: acc, P c := by
       intro c hc
       rcases List.mem_cons.mp hc with h1 | h1
-      · subst h1; exact hP _ (Nat.mod_lt _ (by decide))
+      · subst h1; exact hP _ (Nat.mod_lt _ hb)
       · exact h c h1
     split at hc
     · exact hacc c hc
     · exact ih _ _ hacc c hc
 
+theorem toDigits_forall (P : Char → Prop) (b : Nat) (hb : 0 < b) (hP : ∀ d, d < b → P (Nat.digitChar d)) (n : Nat) :
+    ∀ c ∈ Nat.toDigits b n, P c := by
+  unfold Nat.toDigits
+  exact toDigitsCore_forall P b hb hP _ _ _ (by simp)
+
 theorem hexLower_word (n : Nat) : ∀ c ∈ hexLower n, isWordChar true c = true := by
-  unfold hexLower Nat.toDigits
-  exact toDigitsCore_forall _ digitChar_word _ _ _ (by simp)
+  unfold hexLower
+  exact toDigits_forall _ 16 (by decide) digitChar_word n
 
 end Octave.Gbnf
